@@ -332,19 +332,49 @@ struct FsmResult {
     cache_base_transitions: u64,
     multi_behaviour_keys: usize,
     pool: Vec<usize>,
+    requests: Vec<String>,
 }
 
-fn explore<T: Real>(pk: PK, seeds: &[usize], cap: usize, max_depth: usize, state_cap: usize, seed: u64) -> Option<FsmResult> {
+/// `closure_r`: None = the whole closed pool to `max_depth`; Some(r) = a sub-pool of r requests (the first seed in
+/// both directions, then the largest sub-lengths the plan reports name, then the other seeds) explored until no new
+/// state appears (`max_depth` is then only a safety net).
+fn explore<T: Real>(pk: PK, seeds: &[usize], cap: usize, max_depth: usize, state_cap: usize, seed: u64, closure_r: Option<usize>) -> Option<FsmResult> {
     AnyPlanner::<T>::new(pk)?;
-    let pool = build_pool::<T>(pk, seeds, cap);
+    let mut pool = build_pool::<T>(pk, seeds, cap);
     let mut requests: Vec<Req> = Vec::new();
-    for &n in &pool {
-        requests.push((n, FftDirection::Forward));
-    }
-    // inverse requests for every second length (keeps the pool small; direction interplay is still exercised)
-    for (i, &n) in pool.iter().enumerate() {
-        if i % 2 == 0 || seeds.contains(&n) {
-            requests.push((n, FftDirection::Inverse));
+    if let Some(r) = closure_r {
+        // lengths in the order: seed0, its sub-lengths (largest first), seed1, ...
+        let mut order: Vec<usize> = Vec::new();
+        for (si, &s) in seeds.iter().enumerate() {
+            let sub = build_pool::<T>(pk, &[s], 1 + (r + 1) / 2);
+            let mut sub: Vec<usize> = sub.into_iter().filter(|x| *x != s).collect();
+            sub.sort_by(|a, b| b.cmp(a));
+            for x in std::iter::once(s).chain(sub.into_iter().take(if si == 0 { 3 } else { 1 })) {
+                if !order.contains(&x) {
+                    order.push(x);
+                }
+            }
+        }
+        for (i, &n) in order.iter().enumerate() {
+            if requests.len() < r {
+                requests.push((n, FftDirection::Forward));
+            }
+            if (i < 2 || i % 3 == 0) && requests.len() < r {
+                requests.push((n, FftDirection::Inverse));
+            }
+        }
+        pool = requests.iter().map(|q| q.0).collect();
+        pool.sort();
+        pool.dedup();
+    } else {
+        for &n in &pool {
+            requests.push((n, FftDirection::Forward));
+        }
+        // inverse requests for every second length (keeps the pool small; direction interplay is still exercised)
+        for (i, &n) in pool.iter().enumerate() {
+            if i % 2 == 0 || seeds.contains(&n) {
+                requests.push((n, FftDirection::Inverse));
+            }
         }
     }
     let mut refsets = HashMap::new();
@@ -400,7 +430,7 @@ fn explore<T: Real>(pk: PK, seeds: &[usize], cap: usize, max_depth: usize, state
         frontier = next;
     }
     let multi = sh.behaviours.lock().unwrap().values().filter(|s| s.len() >= 2).count();
-    Some(FsmResult { rep, states: seen.len() as u64, transitions, depth_completed, closure, cache_base_transitions: cache_base, multi_behaviour_keys: multi, pool })
+    Some(FsmResult { rep, states: seen.len() as u64, transitions, depth_completed, closure, cache_base_transitions: cache_base, multi_behaviour_keys: multi, pool, requests: requests.iter().map(req_name).collect() })
 }
 
 fn seeds_for(pk: PK, is32: bool) -> Vec<usize> {
@@ -466,37 +496,57 @@ pub fn run(ctx: &Ctx) -> i32 {
     let mut table = Vec::new();
     let mut avx_cache_base = 0u64;
     let mut avx_present = false;
+    // two kinds of search per (planner, type): the wide pool to a fixed depth, and a sub-pool of `closure_r`
+    // requests explored until NO new state appears (the complete reachable state space over that sub-pool)
+    let closure_r = t.pick(10usize, 14usize);
+    let mut closures_reached = 0usize;
+    let mut closures_run = 0usize;
     for pk in PK::DISTINCT {
         for is32 in [true, false] {
-            let seeds = seeds_for(pk, is32);
-            let r = if is32 { explore::<f32>(pk, &seeds, cap, depth, state_cap, ctx.seed) } else { explore::<f64>(pk, &seeds, cap, depth, state_cap, ctx.seed) };
-            let r = match r {
-                Some(r) => r,
-                None => continue,
-            };
-            if pk == PK::Avx {
-                avx_present = true;
-                avx_cache_base += r.cache_base_transitions;
+            for closure in [None, Some(closure_r)] {
+                let seeds = seeds_for(pk, is32);
+                let (dep, scap) = if closure.is_some() { (closure_r + 1, t.pick(20_000, 200_000)) } else { (depth, state_cap) };
+                let r = if is32 { explore::<f32>(pk, &seeds, cap, dep, scap, ctx.seed, closure) } else { explore::<f64>(pk, &seeds, cap, dep, scap, ctx.seed, closure) };
+                let r = match r {
+                    Some(r) => r,
+                    None => continue,
+                };
+                if pk == PK::Avx {
+                    avx_present = true;
+                    avx_cache_base += r.cache_base_transitions;
+                }
+                if closure.is_some() {
+                    closures_run += 1;
+                    if r.closure {
+                        closures_reached += 1;
+                    } else {
+                        rep.notes.push(format!("{} {}: closure search stopped at depth {} without closing", pk.name(), if is32 { "f32" } else { "f64" }, r.depth_completed));
+                    }
+                }
+                rep.states += r.states;
+                rep.transitions += r.transitions;
+                rep.evaluations += r.transitions;
+                rep.distinct_nontrivial += r.transitions;
+                table.push(
+                    Json::obj()
+                        .with("planner", pk.name())
+                        .with("type", if is32 { "f32" } else { "f64" })
+                        .with("kind", if closure.is_some() { "closure over a sub-pool" } else { "wide pool, fixed depth" })
+                        .with("pool_lengths", Json::Arr(r.pool.iter().map(|x| Json::Int(*x as i64)).collect()))
+                        .with("requests", Json::Arr(r.requests.iter().map(|x| Json::Str(x.clone())).collect()))
+                        .with("states", r.states)
+                        .with("transitions", r.transitions)
+                        .with("depth_completed", r.depth_completed)
+                        .with("closure_reached", r.closure)
+                        .with("transitions_rewritten_onto_a_cached_base", r.cache_base_transitions)
+                        .with("requests_with_2_or_more_distinct_behaviours", r.multi_behaviour_keys),
+                );
+                rep.merge(r.rep);
             }
-            rep.states += r.states;
-            rep.transitions += r.transitions;
-            rep.evaluations += r.transitions;
-            rep.distinct_nontrivial += r.transitions;
-            table.push(
-                Json::obj()
-                    .with("planner", pk.name())
-                    .with("type", if is32 { "f32" } else { "f64" })
-                    .with("pool_lengths", Json::Arr(r.pool.iter().map(|x| Json::Int(*x as i64)).collect()))
-                    .with("states", r.states)
-                    .with("transitions", r.transitions)
-                    .with("depth_completed", r.depth_completed)
-                    .with("closure_reached", r.closure)
-                    .with("transitions_rewritten_onto_a_cached_base", r.cache_base_transitions)
-                    .with("requests_with_2_or_more_distinct_behaviours", r.multi_behaviour_keys),
-            );
-            rep.merge(r.rep);
         }
     }
+    rep.set("closure_searches_run", closures_run as i64);
+    rep.set("closure_searches_closed", closures_reached as i64);
     if avx_present && avx_cache_base == 0 {
         rep.machinery_errors.push("vacuous: no AVX transition ever took the cache-rewrite path (CacheBase with a non-empty radix chain)".into());
     }
@@ -504,11 +554,12 @@ pub fn run(ctx: &Ctx) -> i32 {
     rep.sample(table.first().cloned().unwrap_or(Json::Null));
     rep.set("searches", Json::Arr(table));
     rep.rule = format!(
-        "per planner {{scalar,sse,avx}} x {{f32,f64}}: breadth-first search over the REAL planner's reachable cache states; requests = a closed pool (seeds with multi-stage radix chains / Rader / Bluestein bases, closed under every stage and inner length the plan reports name; forward for all, inverse for half) ; all histories up to depth {d} (or closure); a state is deduplicated by its canonical form (sorted cache keys with scratch lengths and output-bit hash of each cached instance); invariants on every transition: I1 len/direction, I2 C01 on impulses, I3 C02 on dense vectors, I4 C06 between the instances the planner returned for the two directions, I5 exact NaN-poisoned scratch, I6 a second planner fed the same history is in the same state, I7 instances survive drop(planner). Every transition is an execution of the implementation (traces_validated_against_impl = transitions).",
-        d = depth
+        "per planner {{scalar,sse,avx}} x {{f32,f64}}: breadth-first search over the REAL planner's reachable cache states; requests = a closed pool (seeds with multi-stage radix chains / Rader / Bluestein bases, closed under every stage and inner length the plan reports name; forward for all, inverse for half) ; (a) the whole pool: all histories up to depth {d}; (b) a sub-pool of {cr} requests: until no new state appears, i.e. the complete reachable state space over that sub-pool (closure_reached per search); a state is deduplicated by its canonical form (sorted cache keys with scratch lengths and output-bit hash of each cached instance); invariants on every transition: I1 len/direction, I2 C01 on impulses, I3 C02 on dense vectors, I4 C06 between the instances the planner returned for the two directions, I5 exact NaN-poisoned scratch, I6 a second planner fed the same history is in the same state, I7 instances survive drop(planner). Every transition is an execution of the implementation (traces_validated_against_impl = transitions).",
+        d = depth,
+        cr = closure_r
     );
     rep.exhaustive = false;
-    rep.set("exhaustive_within", format!("all request histories over the pool up to depth {} (see per-search 'closure_reached')", depth));
+    rep.set("exhaustive_within", format!("all request histories over the wide pool up to depth {}; ALL request histories of any length over each closure sub-pool of {} requests (see per-search 'closure_reached')", depth, closure_r));
     rep.assumptions = vec![
         "canonical form: planning reads the cache only through contains/get by (len, direction) and wrappers read a cached instance only through its scratch lengths and its process* behaviour; the probe hash errs towards over-fine".into(),
         "requests outside the pool are not covered; random length-12 sequences from the property text are not run (sampling is outside this family)".into(),
